@@ -54,19 +54,29 @@ def scaled(v, scale):
     return {"inf": False, "v": iw}
 
 
-def run_real(case):
+def run_real(case, chainers=None):
+    """chainers: the pipeline builds ONE SegmentChainer per process and calls chain() once per query / reference /
+    strand; cases that share the parameters therefore share the chainer object here as well (state that leaks from one
+    call into the next is part of what C14 quantifies over: 'for all segment sets', whatever was chained before)"""
     from src.alignment.segment_chainer import SegmentChainer, SequentialityScorer
     par = case["par"]
     scale = par["scale"]
     segs = build_segments([dict(s, _scale=scale) for s in case["segs"]])
-    scorer = SequentialityScorer(par["mnum"] / par["mden"], par["variant"])
+    key = (par["mnum"], par["mden"], par["variant"])
+    if chainers is not None and key in chainers:
+        scorer, chainer = chainers[key]
+    else:
+        scorer = SequentialityScorer(par["mnum"] / par["mden"], par["variant"])
+        chainer = SegmentChainer(scorer)
+        if chainers is not None:
+            chainers[key] = (scorer, chainer)
     n = len(segs)
     J = [[{"inf": False, "v": 0} for _ in range(n)] for _ in range(n)]
     for a in range(n):
         for b in range(n):
             if a != b and not case["segs"][a]["empty"] and not case["segs"][b]["empty"]:
                 J[a][b] = scaled(scorer.getScore(segs[a], segs[b]), scale)
-    res = SegmentChainer(scorer).chain(list(segs))
+    res = chainer.chain(list(segs))
     idx = {id(s): k for k, s in enumerate(segs, start=1)}
     return J, [idx.get(id(s), 0) for s in res]
 
@@ -108,11 +118,15 @@ def signature(rec, failed):
 
 
 def _rerun(case):
-    J, res = run_real(case)
+    chainers = {}
+    for prev in case.get("before", []):     # the calls the same chainer object served just before
+        run_real(prev, chainers)
+    J, res = run_real(case, chainers)
     return {"segs": case["segs"], "par": case["par"], "J": J, "res": res}
 
 
-REPLAY = ("Trace_Chainer", "Trace_Chainer.cfg", _rerun, ())
+REPLAY = ("Trace_Chainer", "Trace_Chainer.cfg", _rerun, ("before",))
+HISTORY = 3
 
 def run(ctx: Ctx):
     quick = ctx.tier == "quick"
@@ -121,7 +135,9 @@ def run(ctx: Ctx):
                 "sets of 2..8 lattice segments plus 0..2 empty ones in random list order, both strands, both join "
                 "variants, multipliers {0,1/2,1,2}; all through the real SegmentChainer with the join matrix observed "
                 "from the real SequentialityScorer (exact multiples of 1/55440), judged by TLC (Trace_Chainer: "
-                "optimality against every key-ordered subset). non-trivial = distinct set with >= 3 non-empty "
+                "optimality against every key-ordered subset); sets with the same parameters are chained by ONE chainer "
+                "object in sequence, as in the pipeline (a failing case stores the 3 preceding calls for --replay). "
+                "non-trivial = distinct set with >= 3 non-empty "
                 "segments whose real chain drops at least one of them, or contains a -inf pair")
     ctx.assumptions = ["lattice-scale coordinates (0..6; 0..3 for variant 1) so that every join is an exact multiple "
                        "of 1/55440 (DESIGN.md 2.4): C14 is decided on lattice inputs only",
@@ -149,23 +165,29 @@ def run(ctx: Ctx):
     for _ in range(n_rand):
         cases.append(random_case(rng))
     records = []
+    chainers = {}
+    history = {}
     for case in cases:
+        hkey = (case["par"]["mnum"], case["par"]["mden"], case["par"]["variant"])
+        before = list(history.get(hkey, []))
+        history[hkey] = (before + [{"segs": case["segs"], "par": case["par"]}])[-HISTORY:]
         try:
-            J, res = run_real(case)
+            J, res = run_real(case, chainers)
         except tlc.MachineryError:
             raise
         except Exception as e:      # the real scorer / chainer raised on a valid segment set: no result exists
-            ctx.violation({"segs": case["segs"], "par": case["par"], "exception": repr(e)},
+            ctx.violation({"segs": case["segs"], "par": case["par"], "exception": repr(e), "before": before},
                           ["chainer_raised_" + type(e).__name__], "",
                           what=f"{type(e).__name__} on segs={[(s['rs'], s['re'], s['qs'], s['qe']) for s in case['segs'] if not s['empty']]} par={case['par']}")
             continue
-        rec = {"segs": case["segs"], "par": case["par"], "J": J, "res": res}
+        rec = {"segs": case["segs"], "par": case["par"], "J": J, "res": res, "before": before}
         records.append(rec)
         ne = [s for s in case["segs"] if not s["empty"]]
         kept = [k for k in res if not case["segs"][k - 1]["empty"]]
         if len(ne) >= 3 and (len(kept) < len(ne) or any(x["inf"] for row in J for x in row)):
             ctx.nontrivial(repr((case["segs"], case["par"])))
-    verdicts, r = batch.validate("Trace_Chainer", "Trace_Chainer.cfg", ctx.workdir, records)
+    verdicts, r = batch.validate("Trace_Chainer", "Trace_Chainer.cfg", ctx.workdir,
+                                 [{k: v for k, v in x.items() if k != "before"} for x in records])
     ctx.add_traces(len(records))
     ctx.notes["trace_validation"] = {"states": r.distinct, "wall_s": round(r.wall_s, 1),
                                      "from_tlc_exported_space": len(space), "random": n_rand}
